@@ -30,7 +30,9 @@ func init() {
 		},
 		Thorough: []Scenario{
 			mk("m1-2c", 16, "10", 600), mk("m2-cost", 16, "9", 600), mk("m2-ttl", 16, "9", 600), mk("m3-3c", 16, "9", 600), mk("m2-q1", 16, "9", 600),
-			rd("m3-reads", 16, "18", 600), mk("m3-loading", 16, "10", 600),
+			rd("m3-reads", 16, "18", 600),
+			{Name: "C02/bfs-m2-cost-3clients", Build: sched, Pkg: "internal", Test: "TestVerif_C02", Params: "cfg=m2-cost,depth=13,clients=3,ops=2", Shards: 16, BudgetS: 600},
+			{Name: "C02/bfs-m2-ttl-3clients", Build: sched, Pkg: "internal", Test: "TestVerif_C02", Params: "cfg=m2-ttl,depth=10,clients=3,ops=2", Shards: 16, BudgetS: 600}, mk("m3-loading", 16, "10", 600),
 			icb("ttl-window", 16, "3", 900), icb("ttl-window-new", 16, "3", 900), icb("cost-updates", 16, "3", 900),
 		},
 	})
